@@ -44,8 +44,8 @@ META = {"text": "TLC explores every reachable state of every generated program o
                 "where they occur. The same is done on pairs of consecutive co-enabled steps of executions really explored by "
                 "simgrid-mc (reduction none), with the checker's own field values, which also checks the view model.",
         "note": "Trusted: TLC, the reference semantics SgKernel (bound to the real kernel by the kernel checks and C43), the driver's "
-                "decoding path. Programs of 2-3 actors x up to 4 operations: mutexes, semaphore, barrier, mailboxes, wait/test; "
-                "condition variables, waitany/testany, actor transitions are not covered. One deviation is recorded as a known "
+                "decoding path. Programs of 2-3 actors x up to 4 operations: mutexes, semaphore, barrier, condition variable, mailboxes, wait/test; "
+                "waitany/testany, actor transitions are not covered. One deviation is recorded as a known "
                 "finding (two BARRIER_ASYNC_LOCK on one barrier). The 'enables' extension goes beyond the statement.",
         "technique": "TLC model checking (SgKernelCommute over SgKernelMC) + real depends() from transitions rebuilt by "
                      "mc_unit_driver + TLC replay of simgrid-mc explorations (SgKernelCommuteReplay, hooks H1/H4)"}
@@ -206,7 +206,7 @@ def run(ctx):
                 e["wit"] = w
             # the view model of SgKernelCommute against the checker's own record (identifiers of communications differ)
             for rv, sv in ((x["r1"], x["v1"]), (x["r2"], x["v2"])):
-                if (rv["t"], rv["a"], rv["o"]) != (sv["t"], sv["a"], sv["o"]) or \
+                if (rv["t"], rv["a"], rv["o"], rv.get("m", 0)) != (sv["t"], sv["a"], sv["o"], sv.get("m", 0)) or \
                    (rv["t"] in ("TestComm", "WaitComm") and (rv["f"], rv["d"]) != (sv["f"], sv["d"])):
                     mism.append((rv, sv))
         ctx.cov["real"]["distinct_pairs"] = len(rtable)
@@ -228,6 +228,6 @@ def run(ctx):
         "commutation is decided by the reference semantics SgKernel (bound to the real kernel by C03-C14/C43), on its states "
         "up to the numbering of activities; observation histories are per actor",
         "identifiers in the specification's views are an injective renaming of the real ones (depends() only compares them)",
-        "transition kinds covered: mutex (async lock, wait, trylock, unlock), semaphore, barrier, iSend/iRecv/WaitComm/TestComm; "
-        "condition variables, waitany/testany, actor join/create are not generated (not in the MC-granularity specification)",
+        "transition kinds covered: mutex (async lock, wait, trylock, unlock), semaphore, barrier, condition variable, iSend/iRecv/WaitComm/TestComm; "
+        "waitany/testany, actor join/create are not generated (not in the MC-granularity specification)",
         "pairs whose execution reaches undefined behaviour in the specification are not judged"]
